@@ -384,6 +384,11 @@ func randValidName(rng *rand.Rand, allowEph bool) string {
 	for i := range b {
 		b[i] = nameChars[rng.Intn(len(nameChars))]
 	}
+	if n >= 10 && rng.Intn(4) == 0 {
+		// names that contain the words the routes are made of are names like any other
+		w := []string{"unpause", "pause", "delete", "create", "empty", "topic", "channel", "unpaused"}[rng.Intn(8)]
+		copy(b[rng.Intn(n-len(w)+1):], w)
+	}
 	s := string(b)
 	if eph {
 		s += "#ephemeral"
